@@ -2057,6 +2057,10 @@ func (d *Document) parseDocument() error {
 	}
 
 done:
+	// 主文档中没有找到 w:document 根元素（空文件、其他根元素或其他命名空间）：返回错误而不是留下空的 Body
+	if d.Body == nil {
+		return WrapError("parse_document", ErrInvalidDocument)
+	}
 	Infof("解析完成，共 %d 个元素", len(d.Body.Elements))
 	return nil
 }
